@@ -222,6 +222,9 @@ class C08(MergeFamProp):
                     p = [sc_py(k) for k in NodePath.get_list_path(named)]
                 except Exception:
                     return f'MergeError names an unparsable path {named!r}'
+                from props.c15 import C15 as _C15
+                if _C15.has_alias_keys(case['docs'][1:]):
+                    return None     # two keys of one mapping address the same list position: the earlier one may have replaced what the later one names
                 if norm_path(base, p) is not None and not any(list(q[:len(p)]) == p and a for q, a in written_paths(case['docs'][1]['raw'])):
                     # the named path exists in the base: only acceptable when a list is replaced by a longer one (element paths)
                     if not isinstance(get_at(base, list(norm_path(base, p))), list):
